@@ -65,7 +65,13 @@ var noEffectMethods = map[string]bool{"Lock": true, "Unlock": true, "RLock": tru
 
 func (E *Engine) invoke(fr *Frame, st *State, recv *Term, cc *ssa.CallCommon, args []Val, instr ssa.Instruction) Val {
 	tb := E.tb
-	E.safety(fr, st, "nil-iface", tb.Not(tb.Eq(E.ifcTag(recv), tb.Int(0))), instr)
+	full0 := cc.Value.Type().String() + "." + cc.Method.Name()
+	if E.isNoEffect(full0, cc.Method.Pkg()) && !isErrorIface(cc.Value.Type()) {
+		// logging and metrics objects: initialised package variables, calls without effect (E1)
+		E.note("calls into " + cc.Method.Pkg().Path() + " have no effect on verified state and their receivers are initialised (E1)")
+	} else {
+		E.safety(fr, st, "nil-iface", tb.Not(tb.Eq(E.ifcTag(recv), tb.Int(0))), instr)
+	}
 	if tag, ok := E.ifcTag(recv).IntVal(); ok && tag != 0 {
 		ct := E.typeByID[int(tag)]
 		ms := E.P.prog.MethodSets.MethodSet(ct)
@@ -93,6 +99,8 @@ func (E *Engine) invoke(fr *Frame, st *State, recv *Term, cc *ssa.CallCommon, ar
 	}
 	return E.unknownCall(fr, st, "interface call "+full, cc.Signature().Results(), instr, args)
 }
+
+func isErrorIface(t types.Type) bool { return t.String() == "error" }
 
 func isSyncLocker(t types.Type) bool {
 	s := t.String()
@@ -564,14 +572,18 @@ func (E *Engine) intrinsic(fr *Frame, st *State, name string, fn *ssa.Function, 
 			E.addObl(fr, st, "post", label, c, instr.Pos())
 		}
 		return nil
-	case "Assert":
+	case "Assert", "Lemma":
 		label := E.strArg(args[0])
 		c := args[1].(*Term)
 		if cf != nil && cf.useMode {
 			E.addFact(st, c)
 		} else {
 			E.addObl(fr, st, "assert", label, c, instr.Pos())
-			E.addFact(st, c)
+			// a proved assertion is available to later ones when it is cheap (quantifier free); use
+			// verif.Lemma to make a quantified statement available
+			if !hasQuant(c) || name == "Lemma" {
+				E.addFact(st, c)
+			}
 		}
 		return nil
 	case "Cover":
@@ -680,6 +692,51 @@ func (E *Engine) intrinsic(fr *Frame, st *State, name string, fn *ssa.Function, 
 			E.fail("Fresh needs a reference")
 		}
 		return tb.And(tb.Not(tb.Eq(r, E.null())), tb.Cmp(">", E.birth(r), E.clock(old)))
+	case "Snapshot":
+		E.snapCount++
+		E.snaps[E.snapCount] = st.clone()
+		si := E.structInfoOf(fn.Signature.Results().At(0).Type(), nil)
+		return E.mkStruct(si, []*Term{tb.Int(int64(E.snapCount))})
+	case "At", "Since", "FreshSince":
+		sn := E.snapOf(args[0])
+		if name == "FreshSince" {
+			r := args[1].(*Term)
+			if r.sort == SSlc {
+				r = E.slcArr(r)
+			}
+			return tb.And(tb.Not(tb.Eq(r, E.null())), tb.Cmp(">", E.birth(r), E.clock(sn)))
+		}
+		c, ok := args[1].(*Closure)
+		if !ok {
+			E.fail("%s needs a function literal", name)
+		}
+		body, tenv := E.calleeBody(c.fn, fr.tenv)
+		if tenv == nil {
+			tenv = fr.tenv
+		}
+		nf := E.newFrame(body, fr, tenv)
+		nf.spec = true
+		nf.ghost = true
+		for i, fv := range body.FreeVars {
+			nf.env[fv] = c.bind[i]
+		}
+		var sub *State
+		if name == "At" {
+			sub = sn.clone()
+			for i, b := range c.bind {
+				if r, ok := b.(*Term); ok && r.sort == SRef && i < len(body.FreeVars) {
+					if pt, ok := body.FreeVars[i].Type().(*types.Pointer); ok {
+						E.storeObj(sub, r, pt.Elem(), E.loadObj(st, r, pt.Elem(), tenv), tenv)
+					}
+				}
+			}
+		} else {
+			sub = st.clone()
+			nf.oldSt = sn
+		}
+		sub.reach = tb.True()
+		vals, _ := E.execFunc(nf, sub, nil)
+		return vals[0]
 	case "Implies":
 		return tb.Implies(args[0].(*Term), args[1].(*Term))
 	case "Iff":
@@ -688,6 +745,41 @@ func (E *Engine) intrinsic(fr *Frame, st *State, name string, fn *ssa.Function, 
 		return nil
 	}
 	E.fail("unknown ghost function verif.%s", name)
+	return nil
+}
+
+func hasQuant(t *Term) bool {
+	seen := map[*Term]bool{}
+	var rec func(t *Term) bool
+	rec = func(t *Term) bool {
+		if seen[t] {
+			return false
+		}
+		seen[t] = true
+		if t.kind == kQuant {
+			return true
+		}
+		for _, a := range t.args {
+			if rec(a) {
+				return true
+			}
+		}
+		return false
+	}
+	return rec(t)
+}
+
+// snapOf resolves a verif.State value to the recorded state.
+func (E *Engine) snapOf(v Val) *State {
+	t, ok := v.(*Term)
+	if ok && len(t.args) == 1 {
+		if n, isInt := t.args[0].IntVal(); isInt {
+			if s, ok := E.snaps[int(n)]; ok {
+				return s
+			}
+		}
+	}
+	E.fail("verif.State value is not the direct result of verif.Snapshot()")
 	return nil
 }
 
